@@ -34,7 +34,8 @@ def built (m : Metric) (host : Host) (u v : List Nat) : Nat :=
 def dist (m : Metric) (host : Host) (xs ys : List Nat) : Nat :=
   m.normalizedDistance (built m host (m.fromSlice xs) (m.fromSlice ys)) xs.length
 
-/-- BQ-cosine built distance as a function of the two word counts and `h` only -/
+/-- BQ-cosine built distance as a function of the two word counts and `h` only:
+    `(1 − pq / sqrt(64 wu · 64 wv)) / 2` with `pq = 64·min wu wv − 2h`, all in binary32 -/
 def cosineOf (wu wv h : Nat) : Nat := BQL.cosineOf wu wv h
 
 theorem diffSigns_eq (xs ys : List Nat) : diffSigns xs ys = BQL.diffSigns xs ys :=
@@ -136,10 +137,24 @@ theorem C12_margin (m : Metric) (hm : m ∈ bqMetrics) (host : Host) (u v : List
     rcases hm with rfl | rfl | rfl <;> decide
   simp only [Metric.margin, this, if_true]; rfl
 
-/-- BQ-cosine between two stored leaves: a function of the word counts and `h` -/
-theorem C12_cosine (host : Host) (u v : List Nat) :
-    built .bqCosine host u v = cosineOf u.length v.length (BQ.hamming u v) :=
-  BQL.built_cosine host u v
+/-- BQ-cosine between two stored leaves: a function of the word counts and `h` (any headers:
+    since the repair the stored norms are not used) -/
+theorem C12_cosine (host : Host) (ph qh u v : List Nat) :
+    Metric.builtDistance .bqCosine host ph u qh v = cosineOf u.length v.length (BQ.hamming u v) :=
+  BQL.built_cosine host ph qh u v
+
+/-- for `w` words (`D = 64 w < 2^62`) the product of the norms `sqrt(D·D)` is exactly `D`, and the
+    distance is `(1 − (D − 2h)/D) / 2` computed in binary32 -/
+theorem C12_cosine_closed (w h : Nat) (hw : 0 < w) (hb : 64 * w < 2 ^ 62) :
+    cosineOf w w h
+      = F32.div (F32.sub F32.one
+          (F32.div (F32.ofInt ((64 * w : Nat) - 2 * (h : Nat))) (F32.ofNat (64 * w)))) F32.two :=
+  BQL.cosineOf_closed w h hw hb
+
+/-- the exactness fact behind it: `sqrt((n as f32) * (n as f32)) = n as f32` for all `n < 2^62` -/
+theorem C12_norm_product_exact (n : Nat) (hn : n < 2 ^ 62) :
+    F32.sqrt (F32.mul (F32.ofNat n) (F32.ofNat n)) = F32.ofNat n :=
+  F32L.sqrt_mul_ofNat n hn
 
 /-- the three built distances of quantised inputs of equal dimension, in terms of `diffSigns` -/
 theorem C12_built (host : Host) (xs ys : List Nat) (hl : xs.length = ys.length) :
@@ -150,7 +165,7 @@ theorem C12_built (host : Host) (xs ys : List Nat) (hl : xs.length = ys.length) 
   refine ⟨?_, ?_, ?_⟩
   · rw [built, C12_euclid, C12_hamming xs ys hl]
   · rw [built, C12_manhattan, C12_hamming xs ys hl]
-  · rw [C12_cosine, C12_hamming xs ys hl, C12_length, C12_length, ← hl]
+  · rw [built, C12_cosine, C12_hamming xs ys hl, C12_length, C12_length, ← hl]
 
 /-- end-to-end (normalised) distances: `4h/d`, `2h/d` and the cosine value, computed in binary32 -/
 theorem C12_normalized (host : Host) (xs ys : List Nat) (hl : xs.length = ys.length) :
@@ -193,7 +208,7 @@ theorem C12_symm (m : Metric) (hm : m ∈ bqMetrics) (host : Host) (u v : List N
   rcases hm with rfl | rfl | rfl
   · rw [built, built, C12_euclid, C12_euclid, C12_hamming_symm]
   · rw [built, built, C12_manhattan, C12_manhattan, C12_hamming_symm]
-  · rw [C12_cosine, C12_cosine, C12_hamming_symm]; exact BQL.cosineOf_comm _ _ _
+  · rw [built, built, C12_cosine, C12_cosine, C12_hamming_symm]; exact BQL.cosineOf_comm _ _ _
 
 /-- symmetry of the end-to-end distance -/
 theorem C12_symm_dist (m : Metric) (hm : m ∈ bqMetrics) (host : Host) (xs ys : List Nat)
@@ -220,9 +235,11 @@ theorem C12_zero (host : Host) (xs ys : List Nat) (hs : signs xs = signs ys) :
   rw [c1, c2]
   exact ⟨F32L.zero_div_ofNat hd, F32L.zero_div_ofNat hd⟩
 
-/-- BQ-cosine, equal sign patterns, dimensions 1..=64 and 129..=320: the distance is `+0.0` -/
+/-- BQ-cosine, equal sign patterns: the distance is `+0.0` at EVERY dimension below `2^61`
+    (`cos = D/D = 1` exactly). The bound is needed: from `D = 2^64` on, `D·D` overflows binary32 and
+    the distance is `0.5` (or NaN). -/
 theorem C12_zero_cosine (host : Host) (xs ys : List Nat) (hs : signs xs = signs ys)
-    (hd : (1 ≤ xs.length ∧ xs.length ≤ 64) ∨ (129 ≤ xs.length ∧ xs.length ≤ 320)) :
+    (hd : xs.length < 2 ^ 61) :
     built .bqCosine host (BQ.pack xs) (BQ.pack ys) = 0 ∧ dist .bqCosine host xs ys = 0 := by
   have hl : xs.length = ys.length := by
     have := congrArg List.length hs
@@ -233,33 +250,40 @@ theorem C12_zero_cosine (host : Host) (xs ys : List Nat) (hs : signs xs = signs 
   obtain ⟨-, -, c3⟩ := C12_normalized host xs ys hl
   rw [h0] at a3 c3
   rw [a3, c3]
-  have hw : (xs.length + 63) / 64 ∈ [1, 3, 4, 5] := by
-    have : (xs.length + 63) / 64 = 1 ∨ (xs.length + 63) / 64 = 3 ∨ (xs.length + 63) / 64 = 4
-        ∨ (xs.length + 63) / 64 = 5 := by omega
-    simpa using this
+  have hw : 64 * ((xs.length + 63) / 64) < 2 ^ 62 := by omega
   exact ⟨BQL.cosineOf_self_zero _ hw, BQL.cosineOf_self_zero _ hw⟩
 
-/-- **Counterexample to "zero for equal sign patterns" for BQ-cosine**: for every vector of
-    dimension 65..=128 the distance to itself (or to any vector with the same signs) is
-    `0xb3800000 = -5.9604645e-8`, negative and non-zero: `sqrt(128)² ` rounds below `128` and the
-    quantised cosine does not clamp. -/
-theorem C12_cosine_self_nonzero (host : Host) (xs ys : List Nat) (hs : signs xs = signs ys)
-    (hd : 65 ≤ xs.length ∧ xs.length ≤ 128) :
-    built .bqCosine host (BQ.pack xs) (BQ.pack ys) = 0xb3800000
-    ∧ dist .bqCosine host xs ys = 0xb3800000
-    ∧ F32.lt 0xb3800000 F32.zero = true := by
-  have hl : xs.length = ys.length := by
-    have := congrArg List.length hs
-    simpa [signs] using this
-  have h0 : diffSigns xs ys = 0 := by
-    rw [← C12_hamming xs ys hl]; exact (C12_hamming_zero_iff xs ys hl).mpr hs
-  obtain ⟨-, -, a3⟩ := C12_built host xs ys hl
+/-- BQ-cosine is a number in `[0, 1]` (never negative, never NaN) for every dimension below `2^61`
+    and every `h` up to the padded dimension: `(D − 2h)/D` rounds into `[-1, 1]`, `1 − c` into
+    `[0, 2]`, halving into `[0, 1]` -/
+theorem C12_cosine_nonneg (w h : Nat) (hw : 0 < w) (hb : 64 * w < 2 ^ 62) (hh : h ≤ 64 * w) :
+    F32.le F32.zero (cosineOf w w h) = true ∧ F32.le (cosineOf w w h) F32.one = true :=
+  BQL.cosineOf_range w h hw hb hh
+
+/-- the same on vectors: built and end-to-end BQ-cosine distances lie in `[0, 1]` -/
+theorem C12_cosine_nonneg_dist (host : Host) (xs ys : List Nat) (hl : xs.length = ys.length)
+    (h0 : 0 < xs.length) (hd : xs.length < 2 ^ 61) :
+    F32.le F32.zero (dist .bqCosine host xs ys) = true
+    ∧ F32.le (dist .bqCosine host xs ys) F32.one = true := by
   obtain ⟨-, -, c3⟩ := C12_normalized host xs ys hl
-  rw [h0] at a3 c3
-  rw [a3, c3]
-  have hw : (xs.length + 63) / 64 = 2 := by omega
-  rw [hw]
-  exact ⟨BQL.cosineOf_2_2_0, BQL.cosineOf_2_2_0, by decide +kernel⟩
+  rw [c3]
+  apply C12_cosine_nonneg _ _ (by omega) (by omega)
+  have := BQL.diffSigns_le xs ys
+  rw [diffSigns_eq]
+  omega
+
+/-- History of the finding, machine-checked: the defect of the formula BEFORE the repair
+    (`pnqn = p.norm * q.norm` with `norm = sqrt(dot(v, v))` stored in the headers), as plain binary32
+    arithmetic. `sqrt(128)·sqrt(128) = 0x42ffffff`, one ulp below `128.0 = 0x43000000`, so
+    `cos = 128/pnqn > 1` and the distance of any 65..=128-dimensional vector to itself was
+    `(1 − cos)/2 = 0xb3800000 = −5.9604645e−8`: non-zero and negative. -/
+theorem C12_old_formula_defect :
+    F32.mul (F32.sqrt (F32.ofNat 128)) (F32.sqrt (F32.ofNat 128)) = 0x42ffffff
+    ∧ F32.ofNat 128 = 0x43000000
+    ∧ F32.div (F32.sub F32.one (F32.div (F32.ofNat 128)
+        (F32.mul (F32.sqrt (F32.ofNat 128)) (F32.sqrt (F32.ofNat 128))))) F32.two = 0xb3800000
+    ∧ F32.lt 0xb3800000 F32.zero = true :=
+  BQL.old_formula_defect
 
 /-! ## ordering neighbours by `h` -/
 
@@ -290,16 +314,18 @@ theorem C12_orders_neighbours (host : Host) (q xs ys : List Nat)
   rw [a1, a2, b1, b2]
   exact C12_monotone _ _ h
 
-/-- BQ-cosine orders by `h`, strictly, for every dimension up to 320 (1 to 5 words).
-    PARTIAL for larger dimensions: the general statement needs monotonicity of the rounding in
-    `F32.div` / `F32.sub` (sticky-bit path of `SF.roundPack`), which is not proved here. -/
+/-- BQ-cosine orders by `h`, strictly, for every dimension up to 320 (1 to 5 words; kernel
+    evaluation of all 960 steps). PARTIAL (bounded) for larger dimensions: the general statement
+    needs monotonicity in the numerator of the rounding in `F32.div` (sticky-bit path of
+    `SF.roundPack`) and of `F32.sub`, which is not proved here; what IS proved for all dimensions is
+    the closed form `C12_cosine_closed`, the range `C12_cosine_nonneg` and `C12_zero_cosine`. -/
 theorem C12_monotone_cosine_partial (w h1 h2 : Nat) (hw : 1 ≤ w ∧ w ≤ 5) (h : h1 < h2)
     (hb : h2 ≤ 64 * w) : F32.lt (cosineOf w w h1) (cosineOf w w h2) = true :=
   BQL.cosineOf_strict_mono w h1 h2 hw h hb
 
-/-- for one and four words (dimensions 1..=64 and 193..=256) the cosine distance is exactly
-    `h / (64 w)`: `h` over the dimension rounded up to a multiple of 64 -/
-theorem C12_cosine_exact (w h : Nat) (hw : w = 1 ∨ w = 4) (hb : h ≤ 64 * w) :
+/-- for one, two and four words (dimensions 1..=128 and 193..=256, `D` a power of two) the cosine
+    distance is exactly `h / D`: `h` over the dimension rounded up to a multiple of 64 -/
+theorem C12_cosine_exact (w h : Nat) (hw : w = 1 ∨ w = 2 ∨ w = 4) (hb : h ≤ 64 * w) :
     cosineOf w w h = F32.div (F32.ofNat h) (F32.ofNat (64 * w)) :=
   BQL.cosineOf_exact w h hw hb
 
@@ -338,7 +364,7 @@ example : BQ.pack exA = BQ.pack exA' := C12_sign_only _ _ (by decide +kernel)
 example (host : Host) : dist .bqEuclidean host exA exA' = 0 ∧ dist .bqManhattan host exA exA' = 0 :=
   (C12_zero host exA exA' (by decide +kernel)).2.2 (by decide)
 example (host : Host) : dist .bqCosine host exA exA' = 0 :=
-  (C12_zero_cosine host exA exA' (by decide +kernel) (Or.inl (by decide))).2
+  (C12_zero_cosine host exA exA' (by decide +kernel) (by decide)).2
 -- C12_hamming / C12_built / C12_normalized: h = 3, d = 8: 12, 6; 1.5, 0.75; cosine 3/64
 example : exA.length = exB.length ∧ diffSigns exA exB = 3 := by decide +kernel
 example : BQ.hamming (BQ.pack exA) (BQ.pack exB) = 3 := by decide +kernel
@@ -356,10 +382,19 @@ example (host : Host) : dist .bqCosine host exA exB = dist .bqCosine host exA ex
 -- C12_symm
 example (host : Host) : dist .bqManhattan host exA exB = dist .bqManhattan host exB exA :=
   C12_symm_dist _ (by decide) host _ _ (by decide)
--- C12_cosine_self_nonzero: a 65-dimensional vector of `+0.0`
+-- C12_zero_cosine at the dimension where the old formula failed: a 65-dimensional vector of `+0.0`
 example (host : Host) :
-    dist .bqCosine host (List.replicate 65 F32.zero) (List.replicate 65 F32.zero) = 0xb3800000 :=
-  (C12_cosine_self_nonzero host _ _ rfl (by decide)).2.1
+    dist .bqCosine host (List.replicate 65 F32.zero) (List.replicate 65 F32.negZero |>.map F32.neg) = 0 :=
+  (C12_zero_cosine host _ _ (by decide +kernel) (by decide)).2
+-- C12_cosine_nonneg: hypotheses hold (3 words, h = 5)
+example : F32.le F32.zero (cosineOf 3 3 5) = true ∧ F32.le (cosineOf 3 3 5) F32.one = true :=
+  C12_cosine_nonneg 3 5 (by decide) (by decide) (by decide)
+example (host : Host) : F32.le F32.zero (dist .bqCosine host exA exB) = true :=
+  (C12_cosine_nonneg_dist host exA exB (by decide) (by decide) (by decide)).1
+-- C12_old_formula_defect is closed (no hypotheses): see the statement
+-- C12_cosine_closed / C12_norm_product_exact: 3 words, D = 192 (not a perfect square)
+example : cosineOf 3 3 5 = 0x3cd55550 ∧ F32.sqrt (F32.mul (F32.ofNat 192) (F32.ofNat 192)) = 0x43400000 := by
+  decide +kernel
 -- C12_monotone / C12_strict_monotone / C12_orders_neighbours / C12_monotone_cosine_partial
 example : F32.lt (F32.ofNat (4 * 1)) (F32.ofNat (4 * 2)) = true :=
   (C12_strict_monotone 1 2 (by decide) (by decide)).1
